@@ -38,6 +38,20 @@ OPS = [
 ]
 OPS = OPS[:-1]
 
+# second batch (MUT_BATCH=2): off-by-one shapes, range ends, reversed comparisons, negated conditions
+OPS2 = [
+    (r" \+ 1\b", ""), (r" - 1\b", ""), (r"\.\.=", ".."), (r"(?<![.])\.\.(?![.=])", "..="),
+    (r" < ", " > "), (r" > ", " < "), (r" <= ", " >= "), (r" >= ", " <= "),
+    (r"\.len\(\)", ".len().saturating_sub(1)"), (r"\.is_empty\(\)", ".len() == 1"),
+    (r"\bif (?!let\b)([^{]+?) \{", r"if !(\1) {"), (r"\bwhile (?!let\b)([^{]+?) \{", r"while !(\1) {"),
+    (r"\.unwrap_or\(([^)]+)\)", r".unwrap_or_default()"), (r"\.cloned\(\)", ".cloned().take(1)"),
+    (r"\.skip\(1\)", ""), (r"\.take\(([^)]+)\)", ""), (r"\.filter\(", ".skip(1).filter("),
+    (r"\.push\(", ".insert(0, "), (r"\.insert\(0, ", ".push("), (r"\.extend\(", ".extend(std::iter::empty().chain("),
+    (r"Ok\(None\)", "Ok(Some(Default::default()))"), (r"\bi64\b", "i32"), (r"\busize\b", "u8"),
+]
+if os.environ.get("MUT_BATCH") == "2":
+    OPS = OPS2
+
 DELETE = re.compile(r"^\s+(self|ctx|row|row_result|cache|out|vars|data|block|signals|stack|result)[A-Za-z0-9_\.]*\.[a-z_]+\(.*\);\s*$")
 
 
@@ -97,7 +111,7 @@ def all_mutants(repo):
                     new = code[:m.start()] + rep + code[m.end():] + l[len(code):]
                     if new != l:
                         muts.append((f, i, l, new, rx))
-            if DELETE.match(code) and "return" not in code:
+            if os.environ.get("MUT_BATCH") != "2" and DELETE.match(code) and "return" not in code:
                 muts.append((f, i, l, "", "delete-statement"))
     # deterministic order, interleaving files
     muts.sort(key=lambda m: hashlib.md5(f"{m[0]}:{m[1]}:{m[4]}:{m[3]}".encode()).hexdigest())
@@ -132,7 +146,7 @@ def main():
     order = ["C01", "C06", "C05", "C02", "C08", "C11", "C12", "C16", "C03", "C04", "C07", "C09", "C10", "C13", "C14", "C15", "C17", "C18", "C19", "C20"]
     props = [p for p in order if p in props] + [p for p in props if p not in order]
     muts = all_mutants(repo)
-    res = open(f"/tmp/mut/results.{wid}.tsv", "a")
+    res = open(f"/tmp/mut/results{os.environ.get('MUT_BATCH', '')}.{wid}.tsv", "a")
     done = 0
     for k, (f, i, old, new, op) in enumerate(muts):
         if k % nw != wid % nw:
